@@ -151,6 +151,10 @@ type dgram struct {
 	pathOK  bool
 	tsOpt   int64 // SCION: receive time supplied in an E2E timestamp option (0: none)
 	tsUse   bool  // ... and it lies inside the exchange, so the client is expected to use it
+	tsAuto  bool  // ... the expectation is derived after the exchange from the kernel transmit time (recordIP)
+	// SCION: structOK = SCION/UDP with a consistent UDP length; addrOK = from the queried ISD-AS
+	// and host (as an IP address) and addressed to the client; pathOK = both
+	structOK, addrOK bool
 	// NTS verdicts for b, computed by the harness with the real libraries, independently of the
 	// client: nts.DecodePacket ok / unique id equals the request's / AEAD opens under the S2C key
 	ntsDec, ntsUID, ntsOpen bool
@@ -650,7 +654,13 @@ func explain(p *peer, cfg exchCfg, res exchResult) (cands []usedCand) {
 	ref := res.now0
 	cRx := res.ts.UnixNano()
 	for i, d := range res.sent {
-		if !reachesNTP(p, d, cfg.nts) {
+		if d.wire != nil {
+			// SCION: whatever has the structure of a SCION/UDP packet with a whole NTP header,
+			// wherever it claims to come from — the address clause is judged by the oracle
+			if !(d.structOK && len(d.b) >= 48) {
+				continue
+			}
+		} else if !reachesNTP(p, d, cfg.nts) {
 			continue
 		}
 		rx, tx := be64(d.b[32:]), be64(d.b[40:])
@@ -777,7 +787,7 @@ func recordIP(c *lib.Ctx, tag string, cfg exchCfg, res exchResult) int {
 			t[3] = dec64(res.prev0.CRxTime, res.now0)
 		} else {
 			t[1], t[2], t[3] = dec64(rx, res.now0), dec64(tx, res.now0), cRx
-			if d.tsOpt != 0 && (cRx == d.tsOpt) != d.tsUse {
+			if d.tsOpt != 0 && !d.tsAuto && (cRx == d.tsOpt) != d.tsUse {
 				c.Fail("C08:client-scion:tsopt-use", "the packet's timestamp option is used although its time lies outside the exchange, or not used although it lies inside",
 					[]string{opReq}, map[string]any{"tsopt": d.tsOpt, "returned": cRx, "expect_used": d.tsUse})
 			}
@@ -832,6 +842,29 @@ func recordIP(c *lib.Ctx, tag string, cfg exchCfg, res exchResult) int {
 		}
 		if !acceptedIL {
 			t[0] = ctx1
+		}
+		if d := res.sent[idx]; !acceptedIL && d.tsOpt != 0 && d.tsAuto {
+			// option time placed near the request's transmit time: it may be used only if it is not
+			// before the kernel transmit time (exact from the filter tuple, else +-2 ns) and not
+			// after the kernel receive time (= the returned time when the option was not used)
+			used := res.ts.UnixNano() == d.tsOpt
+			slack := int64(2)
+			if cfg.filter && res.filter.got {
+				slack = 0
+			}
+			switch {
+			case used && d.tsOpt < ctx1-slack:
+				c.Fail("C08:client-scion:tsopt-use", "the packet's timestamp option is used although its time lies before the transmission of the request",
+					[]string{opReq}, map[string]any{"tsopt": d.tsOpt, "ctx1": ctx1, "now0": res.now0})
+			case !used && d.tsOpt >= ctx1+slack && d.tsOpt <= res.ts.UnixNano():
+				c.Fail("C08:client-scion:tsopt-use", "the packet's timestamp option is not used although its time lies inside the exchange",
+					[]string{opReq}, map[string]any{"tsopt": d.tsOpt, "ctx1": ctx1, "returned": res.ts.UnixNano()})
+			}
+			if used {
+				c.Count(tag + ":oracle:tsopt-auto:used")
+			} else {
+				c.Count(tag + ":oracle:tsopt-auto:ignored")
+			}
 		}
 		// direct oracle 1: the transmit timestamp lies between the clock reading before the send and the peer's receipt
 		if !acceptedIL && (ctx1 < res.now0-1 || ctx1 > res.ri.R) && cfg.setNow == nil {
@@ -919,7 +952,7 @@ func recordIP(c *lib.Ctx, tag string, cfg exchCfg, res exchResult) int {
 	// judged by the property's own predicate on the bytes the peer sent
 	if accepted {
 		if cands := explain(p, cfg, res); len(cands) > 0 {
-			echoOK, authOK := false, false
+			echoOK, authOK, addrOK := false, false, false
 			var descr []string
 			for _, u := range cands {
 				d := res.sent[u.idx]
@@ -930,13 +963,21 @@ func recordIP(c *lib.Ctx, tag string, cfg exchCfg, res exchResult) int {
 				if !(cfg.spaoKey && d.authInvalid) {
 					authOK = true
 				}
-				descr = append(descr, fmt.Sprintf("datagram %d read as interleaved=%v: origin=%s auth-invalid=%v", u.idx, u.il, f64(be64(d.b[24:])), d.authInvalid))
+				if d.wire == nil || d.addrOK {
+					addrOK = true
+				}
+				descr = append(descr, fmt.Sprintf("datagram %d read as interleaved=%v: origin=%s auth-invalid=%v from-queried-host-to-client=%v", u.idx, u.il, f64(be64(d.b[24:])), d.authInvalid, d.wire == nil || d.addrOK))
 			}
 			detail := map[string]any{"used": descr, "request_interleaved": res.ri.interleavedRq, "request_tx": f64(res.ri.tx),
 				"request_rx": f64(res.ri.rx), "offset": int64(res.off), "key_available": cfg.spaoKey}
 			if !echoOK {
 				c.Fail("C05:accepted-response-does-not-echo-request",
 					"the client took its measurement from a datagram whose origin timestamp is neither the outstanding request's transmit timestamp nor (request interleaved, response evaluated as interleaved) its receive timestamp",
+					[]string{opReq, op}, detail)
+			}
+			if !addrOK {
+				c.Fail("C05:scion:accepted-response-from-other-host",
+					"the SCION client took its measurement from a datagram whose source is not the queried ISD-AS and host (as an IP address, an IPv4 address and its IPv4-mapped form being the same) or which is not addressed to the client",
 					[]string{opReq, op}, detail)
 			}
 			if !authOK {
